@@ -226,14 +226,6 @@ def _write_dump(path, frames, types, timesteps, lo, H, cols=None):
                 f.write(" ".join(row) + "\n")
 
 
-class Obj:
-    """A shared object of the session: label, kind, digest function, owner family ("" = nobody may change it)."""
-    __slots__ = ("name", "get", "owner")
-
-    def __init__(self, name, get, owner=""):
-        self.name, self.get, self.owner = name, get, owner
-
-
 class World:
     """Two shared Snapshots objects + array arguments + neighbour / weight files, built once in the
     parent process (the sessions run in forked children, so every session starts from identical bits)."""
@@ -1329,6 +1321,7 @@ def model_phase(chk, tier, worlds):
 
 
 def get_registry(tier):
+    """the registry of entry points and the world descriptors, as Session.tla / MC_Session.tla define them"""
     c = dict(mc_constants(tier, "w2", "registry"), SHARD=0, NSHARDS=1)
     r = run_tlc("MC_Session", dict(constants=c, invariants=["Emit"]))
     require_model_ok(r, "MC_Session registry")
@@ -1572,6 +1565,7 @@ def header_record(w):
 
 
 def setup(tier, worlds, tmp):
+    """registry from the specification; the worlds built here must be the ones MC_Session.tla describes"""
     global REG
     REG, wdesc = get_registry(tier)
     for w in worlds:
@@ -1619,13 +1613,13 @@ def run(tier, replay=None):
             print("expected: no shared object changes except state arrays owned by the constructor / setter called; "
                   "equal call identities give equal results; files hold the returned values")
             return 0
+        # ---- shared inputs (built once; every session runs in a fork of this process)
+        setup(tier, worlds, tmp)
         # ---- the model: invariants on every word, non-vacuity, schedules
-        setup(tier, [], tmp)
         cases = model_phase(chk, tier, worlds)
         chk.exhaustive = True
         chk.extra["schedules_emitted"] = {f"{k[1]}:{k[0]}": len(v) for k, v in cases.items()}
         # ---- direction A + B
-        setup(tier, worlds, tmp)
         rng = random.Random(common.SEED * 9176 + 18)
         chosen = select_sessions(tier, cases, rng)
         t0 = time.time()
